@@ -205,7 +205,7 @@ def run(ck):
     max_dist_guard(ck, P)
     stored_final_block(ck, P)
     from .. import condparity
-    ck.floor("SIB/ref-conditions", condparity.check(ck, P, "SIB/ref-conditions", only={"deflate_stored.c:deflate_stored", "deflate.c:deflate", "trees.c:zng_tr_flush_block", "trees.c:gen_bitlen", "trees.c:build_tree", "trees.c:scan_tree", "trees.c:build_bl_tree"}), 60)
+    ck.floor("SIB/ref-conditions", condparity.check(ck, P, "SIB/ref-conditions", only={"trees.c:send_all_trees", "trees.c:compress_block", "trees.c:init_block", "trees.c:zng_tr_stored_block", "trees.c:gen_codes", "trees.c:pqdownheap", "match_tpl.h:LONGEST_MATCH", "deflate_stored.c:deflate_stored", "deflate.c:deflate", "trees.c:zng_tr_flush_block", "trees.c:gen_bitlen", "trees.c:build_tree", "trees.c:scan_tree", "trees.c:build_bl_tree"}), 60)
     # FDICT / DICTID of the zlib header
     from . import c13 as _c13
     _c13.deflate_set_dictionary(ck, P)
